@@ -376,6 +376,11 @@ func TestVerifRotateLogger(t *testing.T) {
 			rlCfg{rule: "size", days: 1, gzip: delim == ".", delim: delim, maxSize: 10, maxBackups: 2, pre: "mixed3"},
 			rlCfg{rule: "daily", days: 1, gzip: false, delim: delim, pre: "mixed3"})
 	}
+	// a file of somebody else's that merely shares the prefix (app-notes.log next to app.log),
+	// together with a backup limit: it is not a backup - it must neither be removed nor take
+	// the place of one of the newest backups
+	cfgs = append(cfgs, rlCfg{rule: "size", days: 0, gzip: false, delim: "-", maxSize: 10, maxBackups: 2, pre: "foreign"},
+		rlCfg{rule: "size", days: 0, gzip: false, delim: "-", maxSize: 10, maxBackups: 1, pre: "foreign"})
 	// the log file's path spelled in a non-canonical way by the caller (file-name globbing
 	// returns cleaned paths: whatever is compared with them must be cleaned too)
 	for _, spell := range []string{"dot", "slash2"} {
